@@ -94,3 +94,16 @@ def oracle(case, reply):
 
 def nontrivial(case, reply):
     return reply.startswith("err")
+
+MANIFEST = {
+    "text": "Proof: every unwrap/expect/assert/panic!/unreachable! of asm.rs, ops.rs, ops/expression.rs, ops/macros.rs, ingest.rs and the "
+            "literal parser is an explicit panic outcome of the models; assemble never yields one (other than the model's own fuel "
+            "marker) for any item list — recursive and mis-applied macros, division by zero, negative and out-of-range operands "
+            "included; recursion is cut off with an error value after 255 macro levels / 255 nested sources; literal conversion fails "
+            "only on strings the grammar cannot produce; ingestion returns bytes or an error value.",
+    "note": "PARTIAL BY NATURE: (a) the parse layer's unwraps depend on the pair-tree shape produced by pest — exercised against the real "
+            "parser on valid / near-valid / token-soup / raw inputs and file graphs (outcome classes must equal the model's, never panic "
+            "/ abort / time-out), not proved; (b) machine stack depth is not modelled: D16 (20000-term sum aborts) is a listed finding. "
+            "Trusted: Lean kernel; the models; child-process isolation and the 10 s limit of the harness runner.",
+    "technique": "Lean 4 panic-freedom proofs over models with explicit panic outcomes + differential fuzzing in isolated child processes",
+}
